@@ -167,7 +167,14 @@ def replay_case(arg):
                             param_map=pmap_) for _ in members]
                         feats.append('regimen_set_through_the_averaged_model')
                         cnt['feat_regimen_set_through_the_averaged_model'] = 1
-                    pam = chi.PAMPredictiveModel(members, weights=[2, 1, 1][:len(members)])
+                    # the weights arrive as a list or -- every other case -- as a float array of the caller's, which is the
+                    # caller's afterwards too (unchanged, and not shared with the model)
+                    w_in = [2, 1, 1][:len(members)] if (int(key, 16) // 7) % 2 else np.array([2.0, 1.0, 1.0][:len(members)])
+                    pam = chi.PAMPredictiveModel(members, weights=w_in)
+                    if isinstance(w_in, np.ndarray):
+                        if not np.array_equal(w_in, np.array([2.0, 1.0, 1.0][:len(members)])):
+                            fail('NoInputWrite', 'weights_modified', dict(now=w_in.tolist()))
+                        w_in[...] = w_in[::-1].copy()              # the caller re-uses the buffer for something else
                     if via_pam:
                         pam.set_dosing_regimen(**REG)
                     refsim.clear_events()
@@ -397,7 +404,10 @@ def posterior_law_checks(seed, n=1200):
                 if len(rows) != n:
                     fails.append(('JointRow', 'n_simulations', dict(got=len(rows), expected=n)))
                 uniform(rows, 'posterior')
-            pam = chi.PAMPredictiveModel([ppm, chi.PosteriorPredictiveModel(pm, post2)], weights=[2, 1])
+            # (the weights are handed over in a float array that the caller overwrites afterwards: the model keeps 2 : 1)
+            w_law = np.array([2.0, 1.0])
+            pam = chi.PAMPredictiveModel([ppm, chi.PosteriorPredictiveModel(pm, post2)], weights=w_law)
+            w_law[...] = [1.0, 50.0]
             probes.clear(tag)
             pam.sample([1.0, 0.5], n_samples=n, individual=who, seed=int(rng.integers(1000)))
             rows = rows_of([e for e in probes.log_of(tag) if e[0] == 'simulate'], who)
